@@ -249,7 +249,7 @@ theorem reconcile_valid (mode : Mode) (toAlpha : Bool) (path : Path) (a α β : 
       unfold ancestorForRecursion; split
       · exact ha
       · rfl
-    exact ih n hn (ovalid_lookup true _ n ha') (ovalid_lookup false α n hα) (ovalid_lookup false β n hβ)
+    exact ih ⟨n, hn⟩ (ovalid_lookup true _ n ha') (ovalid_lookup false α n hα) (ovalid_lookup false β n hβ)
       (ounique_lookup β n hu) c hcp
   | case6 path a α β h1 h2 h3 h4 =>
     intro ha hα hβ hu c hc
